@@ -554,8 +554,12 @@ func buildCS(c Case, now int64) built {
 			ct[len(ct)-1] ^= 0x5a
 		case "wrongkey":
 			k2 := append([]byte{}, aesKey...)
-			k2[0] ^= 1
-			ct, _ = ownEcb(k2, ownPad(plain), true)
+			if len(k2) > 0 {
+				k2[0] ^= 1
+			}
+			if ct2, ok := ownEcb(k2, ownPad(plain), true); ok {
+				ct = ct2
+			}
 		case "dropblock":
 			ct = ct[:len(ct)-16]
 		}
